@@ -22,6 +22,7 @@ class Expect:
         self.heading_toks: set[str] = set()
         self.n_units: int | None = None     # None = not claimed
         self.unit_mode: str = "exact"       # exact | one-or-sections | none
+        self.expected_numbers: list[int] | None = None   # source positions when they are not simply 1..n (EPUB spine positions)
         self.join_equality: bool = False
         self.tables: list[dict] = []        # {"unit": k, "grid": [[cell]]}; cell = {"toks":[...]} | {"v": value} | {"empty": True}
         self.tables_claimed: bool = False
@@ -30,6 +31,8 @@ class Expect:
         self.meta: dict[str, str] = {}
         self.features: set[str] = set()
         self.decoration: list[str] = []     # literal strings allowed to appear (sheet names etc.)
+        self.verbatim: str | None = None    # plain-text family: the decoded source text
+        self.between: list[tuple[str, str, str]] = []   # (token a, token b, text that must stand between them, modulo whitespace)
 
     # ---- recording
     def text(self, tok: str, unit: int = 0, heading: bool = False) -> str:
@@ -98,6 +101,18 @@ def check_text(exp: Expect, full_text: str) -> list[tuple[str, str]]:
                 out.append(("reordered", f"token {t} appears before {last_tok} although it follows it in the source"))
                 break
             last, last_tok = pos[t], t
+    if exp.verbatim is not None:
+        norm = lambda x: x.replace("\r\n", "\n").lstrip("\ufeff").strip()
+        if norm(full_text) != norm(exp.verbatim):
+            a, b = norm(full_text), norm(exp.verbatim)
+            i = next((k for k in range(min(len(a), len(b))) if a[k] != b[k]), min(len(a), len(b)))
+            out.append(("verbatim-differs", f"text differs from the decoded source at offset {i}: got {a[i:i + 12]!r}, source {b[i:i + 12]!r}"))
+    for a, b, must in exp.between:
+        ia, ib = full_text.find(a), full_text.find(b)
+        if ia >= 0 and ib > ia:
+            got = full_text[ia + len(a):ib].strip()
+            if got != must:
+                out.append(("character-wrong", f"between {a} and {b} the source has {must!r} (U+{' U+'.join('%04X' % ord(c) for c in must)}), the output has {got!r}"))
     for a, b in T.glued_pairs(full_text):
         if a in exp.ignored or b in exp.ignored:
             continue
@@ -122,7 +137,8 @@ def check_units(exp: Expect, units: list[dict], full_text: str) -> list[tuple[st
             out.append(("unit-number-order", f"unit numbers not strictly increasing: {nums}"))
         if nums and nums[0] < 1:
             out.append(("unit-number-order", f"unit numbers not 1-based: {nums}"))
-        if exp.unit_mode == "exact" and exp.n_units is not None and len(units) == exp.n_units and nums != list(range(1, len(nums) + 1)):
+        want_nums = exp.expected_numbers if exp.expected_numbers is not None else list(range(1, len(nums) + 1))
+        if exp.unit_mode == "exact" and exp.n_units is not None and len(units) == exp.n_units and nums != want_nums:
             out.append(("unit-number-position", f"unit numbers are not the 1-based source positions: {nums}"))
     # attribution: a token counts as *returned* by a unit when it is in the unit's text or tables; heading tokens are
     # also covered by the heading path (of their own section and, legitimately, of every descendant section)
@@ -147,6 +163,17 @@ def check_units(exp: Expect, units: list[dict], full_text: str) -> list[tuple[st
         elif exp.unit_mode == "exact" and exp.n_units is not None and len(units) == exp.n_units:
             if w[0] != exp.unit_of.get(t, 0):
                 out.append(("unit-token-misplaced", f"token {t} of source unit {exp.unit_of.get(t, 0) + 1} is in unit position {w[0] + 1}"))
+    if exp.unit_mode == "exact" and ok_nums:
+        # a unit's number must be the 1-based source position of the page/slide/sheet its text comes from, even when
+        # other units are missing (dropping an empty unit must not renumber the following ones)
+        for idx, u in enumerate(units):
+            srcs = {exp.unit_of[t] for t in set(T.find((u.get("text") or "") + " " + (u.get("table_text") or ""))) if t in exp.unit_of and t not in exp.ignored}
+            if len(srcs) == 1:
+                src = next(iter(srcs))
+                want = exp.expected_numbers[src] if exp.expected_numbers is not None and src < len(exp.expected_numbers) else src + 1
+                if nums[idx] != want:
+                    out.append(("unit-number-not-source-position", f"unit numbered {nums[idx]} holds the text of source unit {want}"))
+                    break
     for t, w in where.items():
         if t in exp.outs:
             out.append(("unit-leaked", f"excluded token {t} present in unit {units[w[0]].get('number')}"))
